@@ -98,7 +98,27 @@ class Ctx:
                 break
             self._cur = (section, i)
             yield i, rng_for(self.seed, self.pid, section, i)
+            self.checkpoint()
         self._cur = None
+
+    def checkpoint(self, force=False):
+        """Write what has been observed so far next to the final result (kept if the shard is killed by the watchdog or dies)."""
+        path = getattr(self, "partial_path", None)
+        if not path or (not force and time.time() - getattr(self, "_last_ckpt", 0.0) < 45.0):
+            return
+        self._last_ckpt = time.time()
+        try:
+            import json as _json
+            import os as _os
+
+            res = self.dump()
+            res["status"] = "partial"
+            res["error"] = None
+            with open(path + ".tmp", "w") as f:
+                _json.dump(res, f)
+            _os.replace(path + ".tmp", path)
+        except Exception:
+            pass
 
     def section_active(self, section):
         """For sections that are not case loops (exhaustive tables)."""
